@@ -102,20 +102,12 @@ pub struct Object {
 }
 
 impl Hash for Object {
-    /// Mark an object's field as transient by prefixing it with `__` (two underscores)
+    /// Objects are equal when they are the same object (see [`PartialEq`] below), so the hash
+    /// is taken from the object's identity too: hashing the fields would move a key to another
+    /// bucket as soon as one of its fields is assigned, and would not terminate on a cycle.
     fn hash<H: std::hash::Hasher>(&self, state: &mut H) {
         self.name.hash(state);
-
-        let mut variables = self.object_variables.iter().collect::<Vec<_>>();
-        variables.sort_by_key(|x| x.0);
-
-        for (name, value) in variables {
-            if !name.starts_with("__") {
-                name.hash(state);
-                value.primitive().hash(state);
-                value.flags().hash(state);
-            }
-        }
+        std::ptr::hash(self.debug_lock.as_ref(), state);
     }
 }
 
